@@ -82,6 +82,17 @@ func init() {
 		fmt.Printf("NewMnemonicByEntropy(%x, %s)\n observed: %q err=%v\n expected: %q\n", e, ref.LangNames[l], got, err, want)
 		return err == nil && got == want
 	}
+	replayers["encode-inplace"] = func(m *ref.Model, cs map[string]interface{}) bool {
+		e, l, bit := unhex(cs["entropy"]), toInt(cs["lang"]), toInt(cs["bit"])
+		buf := append([]byte(nil), e...)
+		buf[bit/8] ^= 1 << uint(7-bit%8)
+		before, _ := bip39.NewMnemonicByEntropy(buf, Langs[l])
+		buf[bit/8] ^= 1 << uint(7-bit%8)
+		got, err := bip39.NewMnemonicByEntropy(buf, Langs[l])
+		want := m.Encode(buf, l)
+		fmt.Printf("NewMnemonicByEntropy on one buffer before the in-place flip: %q\nafter the flip (%x, %s): %q err=%v\nexpected: %q\n", before, buf, ref.LangNames[l], got, err, want)
+		return err == nil && got == want
+	}
 	replayers["check"] = func(m *ref.Model, cs map[string]interface{}) bool {
 		s, l := string(unhex(cs["sentence"])), toInt(cs["lang"])
 		var lg bip39.Language
